@@ -98,7 +98,7 @@ func evalCrashState(k int, seq int, rng *Rng, cfg Config, snap *fsSnapshot, info
 		return nil, "harness-error"
 	}
 	w := NewWorld("C05", rng.Fork(), cfg, root)
-	w.storeWant = true
+	w.storeWant = false
 	defer w.CloseAll()
 	api := apiOfKind(info.kind)
 	mk := func(clause, detail string) *Violation {
@@ -320,7 +320,7 @@ func runC05(k int, rng *Rng) CaseResult {
 	fsReset("snapshot", root)
 	installHooks(fsHooks(true))
 	w := NewWorld("C05", rng, cfg, root)
-	w.storeWant = true
+	w.storeWant = false
 	defer w.Cleanup()
 	infos := map[int]stepInfo{0: {kind: "create", before: map[string]string{}, after: map[string]string{}, touched: map[string]bool{}}}
 	if !w.OpenCreate() {
